@@ -10,6 +10,7 @@ package faulttree
 import (
 	"context"
 	"fmt"
+	"math"
 	"runtime"
 	"sort"
 	"strings"
@@ -135,7 +136,7 @@ func (n *Node) Entry(r *Run) *View {
 func (t *Tree) NewRun(tag string) *Run { return &Run{Tag: t.Tag + tag} }
 
 var names = []string{"a", "b", "c", "if", "name", "mtu", "x", "y", "k", "v"}
-var lits = []string{"", "a", "b", "eth0", "1", "42", "-3.5", "true", "x y", "0", "NaN", "é"}
+var lits = []string{"", "a", "b", "eth0", "1", "42", "-3.5", "true", "x y", "0", "NaN", "é", "a]b", "it's", "\xff\xfe", "100%", "a\nb"}
 
 // Generate draws a small tree from the tape.
 func Generate(t *tape.Tape, tag string) *Tree {
@@ -215,7 +216,7 @@ func (tr *Tree) value(t *tape.Tape, c *Node) {
 		c.Lit = lits[t.Draw(len(lits))]
 	case 1:
 		c.VK = VNumber
-		c.Num = []float64{0, 1, 2, -1, 42, 1.5, 1e9}[t.Draw(7)]
+		c.Num = []float64{0, 1, 2, -1, 42, 1.5, 1e9, math.NaN(), math.Inf(1), math.Inf(-1), -0.0, 1e308}[t.Draw(12)]
 	case 2:
 		c.VK = VBool
 		c.B = t.Coin()
